@@ -1,11 +1,15 @@
 package main
 
 import (
+	"context"
 	"encoding/json"
 	"fmt"
 	"os"
 	"reflect"
 	"strings"
+
+	"github.com/theory/sqljson/path"
+	"github.com/theory/sqljson/path/exec"
 
 	"github.com/theory/sqljson/path/ast"
 )
@@ -28,6 +32,9 @@ func init() {
 	families["filter"] = famFilter
 	families["struct"] = famStruct
 	families["compose"] = famCompose
+	families["group9"] = famGroup9
+	families["group10"] = famGroup10
+	families["group11"] = famGroup11
 }
 
 func mustDoc(text string, useNumber bool) any {
@@ -622,5 +629,200 @@ func famFile(e *emitter, path string) {
 			}
 		}
 		e.emit(caseSpec{family: fc.Family, text: fc.Text, doc: mustDoc(fc.Doc, fc.Number), vars: vars, useTZ: fc.UseTZ, tzOff: fc.TZ, cancel: fc.Cancel})
+	}
+}
+
+// ---- groups: several cases related by a property; the driver checks the relation ----
+
+func jsonOnly(v any) bool {
+	switch v := v.(type) {
+	case nil, bool, float64, json.Number, string:
+		return true
+	case []any:
+		for _, e := range v {
+			if !jsonOnly(e) {
+				return false
+			}
+		}
+		return true
+	case map[string]any:
+		for _, e := range v {
+			if !jsonOnly(e) {
+				return false
+			}
+		}
+		return true
+	}
+	return false
+}
+
+// items of Query(text, doc): verbose run, or the silent run when the verbose one fails
+func itemsOf(text string, doc any, vars map[string]any) ([]any, bool) {
+	p, err := path.Parse(text)
+	if err != nil {
+		return nil, false
+	}
+	defer func() { _ = recover() }()
+	opts := []exec.Option{}
+	if vars != nil {
+		opts = append(opts, exec.WithVars(vars))
+	}
+	items, err := p.Query(context.Background(), doc, opts...)
+	if err != nil {
+		items, err = p.Query(context.Background(), doc, append(opts, exec.WithSilent())...)
+		if err != nil {
+			return nil, false
+		}
+	}
+	return items, true
+}
+
+// C09: Query(P S, doc) = concatenation over x in Query(P, doc) of Query($ S, x)
+func famGroup9(g *gen, e *emitter, n int) {
+	suffixSteps := []string{".a", ".b", ".*", "[*]", "[0]", "[last]", "[0 to 1]", "[1,0]", " ? (@ > 1)", " ? (@.a == 1)", " ? (exists(@.a))", ".type()", ".size()", ".double()", ".string()",
+		" ? (@[last] > 0)", "[last - 1]", ".**{1}", ".abs()", " ? (@ starts with \"a\")", ".integer()", " ? (@[*] > 1)", ".boolean()", ".**"}
+	prefixSteps := []string{".a", ".b", ".*", "[*]", "[0]", "[last]", "[0 to 1]", " ? (@ != null)", "[1,0]", ".**{1}", ".**"}
+	heads := []string{"$", "$", "$", "$arr", "$obj"}
+	gid := 0
+	for i := 0; i < n; i++ {
+		mode := g.pick("", "strict ")
+		pre := g.pick(heads...)
+		np := g.r.Intn(3)
+		for k := 0; k < np; k++ {
+			st := g.pick(prefixSteps...)
+			if mode != "" && strings.Contains(st, "**") {
+				continue // steps following .** in strict mode are excluded by the property
+			}
+			pre += st
+		}
+		suf := ""
+		ns := 1 + g.r.Intn(2)
+		for k := 0; k < ns; k++ {
+			suf += g.pick(suffixSteps...)
+		}
+		doc := mustDoc(g.docText(3, true), false)
+		vars := g.varsFor(false, true)
+		items, ok := itemsOf(mode+pre, doc, vars)
+		if !ok {
+			continue
+		}
+		allJSON := true
+		for _, it := range items {
+			if !jsonOnly(it) {
+				allJSON = false
+			}
+		}
+		if !allJSON || len(items) > 12 {
+			continue
+		}
+		gid++
+		gname := fmt.Sprintf("g9-%d", gid)
+		e.emit(caseSpec{family: "group9", text: mode + pre + suf, doc: doc, vars: vars, group: gname, role: "PS"})
+		e.emit(caseSpec{family: "group9", text: mode + pre, doc: doc, vars: vars, group: gname, role: "P"})
+		for k, it := range items {
+			e.emit(caseSpec{family: "group9", text: mode + "$" + suf, doc: it, vars: vars, group: gname, role: fmt.Sprintf("S@%d", k)})
+		}
+	}
+}
+
+// C10: P ?(C) keeps exactly the candidates whose predicate check C[@:=$] is [true]
+func famGroup10(g *gen, e *emitter, n int) {
+	conds := []string{"@ > 1", "@ == 1", "@.a == 1", "@.a > 1", "exists(@.a)", `@ starts with "a"`, `@ like_regex "^a"`, "@.a == 1 && @.b == 2", "@.a == 1 || @.b == 2", "!(@ == 1)", "(@ == 1) is unknown",
+		"@.double() > 0", "@.a.double() > 0", "@ == $missing", "exists(@.a) && @.a == $missing", "@[*] > 1", "@.size() > 1", `@.type() == "number"`, "@ == null", "@ != null", "@[0] == 1", "@[last] > 0",
+		"@.a[*] > 1", "!(exists(@.b))", "(@.a > 1) is unknown", "@ < $x", "@.a + 1 == 2", "-@ < 0", `@.a starts with $s`, "@.**{1} == 1"}
+	prefixes := []string{"$", "$[*]", "$.a", "$.a[*]", "$.*", "$[0 to 1]", "$.**{1}", "$arr[*]", "$[*].a"}
+	gid := 0
+	for i := 0; i < n; i++ {
+		mode := g.pick("", "strict ")
+		pre := g.pick(prefixes...)
+		if mode != "" && strings.Contains(pre, "**") {
+			continue // after .** strict-mode steps run with structural errors ignored: not the standalone predicate check
+		}
+		cond := g.pick(conds...)
+		doc := mustDoc(g.docText(3, true), false)
+		vars := g.varsFor(false, true)
+		pp, err := path.Parse(mode + pre)
+		if err != nil {
+			continue
+		}
+		opts := []exec.Option{}
+		if vars != nil {
+			opts = append(opts, exec.WithVars(vars))
+		}
+		items, err := pp.Query(context.Background(), doc, opts...)
+		if err != nil {
+			continue
+		}
+		var cands []any
+		for _, it := range items {
+			if arr, ok := it.([]any); ok && mode == "" {
+				cands = append(cands, arr...)
+			} else {
+				cands = append(cands, it)
+			}
+		}
+		ok := len(cands) <= 12
+		for _, c := range cands {
+			ok = ok && jsonOnly(c)
+		}
+		if !ok {
+			continue
+		}
+		gid++
+		gname := fmt.Sprintf("g10-%d", gid)
+		e.emit(caseSpec{family: "group10", text: mode + pre + " ? (" + cond + ")", doc: doc, vars: vars, group: gname, role: "PF"})
+		e.emit(caseSpec{family: "group10", text: mode + pre, doc: doc, vars: vars, group: gname, role: "P"})
+		check := strings.ReplaceAll(cond, "@", "$")
+		for k, c := range cands {
+			e.emit(caseSpec{family: "group10", text: mode + check, doc: c, vars: vars, group: gname, role: fmt.Sprintf("C@%d", k)})
+		}
+	}
+}
+
+// C11: truth tables of the connectives, for operand pairs with every outcome
+func famGroup11(g *gen, e *emitter, n int) {
+	atoms := map[string][]string{
+		"T": {"$.one == 1", `$.s starts with "a"`, "exists($.t)", "$.t == true", "$.arr[*] > 1"},
+		"F": {"$.one == 2", `$.s starts with "b"`, "exists($.zz)", "$.t == false", "$.arr[*] > 5"},
+		"U": {`$.one == "a"`, "$.s starts with 1", "$.s.double() > 0", `$.one like_regex "a"`, "$.arr == 1 && $.s.integer() > 0"},
+		"E": {"$.one == $missing", "$missing == 1", `$.s.datetime("x") == 1`, "$.one.decimal(0) == 1"},
+	}
+	docText := `{"t":true,"f":false,"n":null,"s":"a","one":1,"arr":[1,2,3]}`
+	forms := []struct{ role, f string }{
+		{"p", "%[1]s"}, {"q", "%[2]s"}, {"and", "(%[1]s) && (%[2]s)"}, {"and_rev", "(%[2]s) && (%[1]s)"}, {"or", "(%[1]s) || (%[2]s)"}, {"or_rev", "(%[2]s) || (%[1]s)"},
+		{"not_p", "!(%[1]s)"}, {"notnot_p", "!(!(%[1]s))"}, {"isunknown_p", "(%[1]s) is unknown"}, {"isunknown_isunknown_p", "((%[1]s) is unknown) is unknown"},
+		{"nand", "!((%[1]s) && (%[2]s))"}, {"dm_or", "!(%[1]s) || !(%[2]s)"}, {"nor", "!((%[1]s) || (%[2]s))"}, {"dm_and", "!(%[1]s) && !(%[2]s)"},
+	}
+	gid := 0
+	emitGroup := func(mode, p, q string, doc any, vars map[string]any) {
+		gid++
+		gname := fmt.Sprintf("g11-%d", gid)
+		for _, f := range forms {
+			text := fmt.Sprintf(f.f, p, q)
+			e.emit(caseSpec{family: "group11", text: mode + text, doc: doc, vars: vars, group: gname, role: f.role})
+			if f.role != "p" && f.role != "q" {
+				e.emit(caseSpec{family: "group11", text: mode + "$ ? (" + text + ")", doc: doc, vars: vars, group: gname, role: "filter:" + f.role})
+			}
+		}
+	}
+	outs := []string{"T", "F", "U", "E"}
+	doc := mustDoc(docText, false)
+	for _, mode := range []string{"", "strict "} {
+		for _, a := range outs {
+			for _, b := range outs {
+				for _, pa := range atoms[a] {
+					pb := atoms[b][g.r.Intn(len(atoms[b]))]
+					emitGroup(mode, pa, pb, doc, nil)
+				}
+			}
+		}
+	}
+	for i := 0; i < n; i++ {
+		c := pctx{depth: 1}
+		p, q := g.pred(c), g.pred(c)
+		if strings.Contains(p, "@") || strings.Contains(q, "@") {
+			continue
+		}
+		emitGroup(g.pick("", "strict "), p, q, mustDoc(g.docText(2, true), g.chance(0.3)), g.varsFor(false, true))
 	}
 }
